@@ -50,6 +50,8 @@ def main(argv):
                 r = subprocess.run([os.path.join(VERIF, "check"), prop, "quick"], env=env, text=True,
                                    stdout=subprocess.PIPE, stderr=subprocess.STDOUT)
                 viol = [l for l in r.stdout.splitlines() if l.startswith("VIOLATION")]
+                if m["expect"] not in ("violation", "silent"):
+                    raise SystemExit(f"mutants/index.json: unknown expect value {m['expect']!r} for {m['patch']}")
                 if m["expect"] == "violation":
                     keys = m.get("keys", [])
                     ok = r.returncode == 1 and all(any(k in v for v in viol) for k in keys) and viol
